@@ -6,7 +6,7 @@ id=$1; shift
 S=/verif/seeded/$id
 mkdir -p $S
 WT=/tmp/wt_$id
-case $id in *-2) WT=/tmp/wt2_${id%-2};; *-3) WT=/tmp/wt3_${id%-3};; *-4) WT=/tmp/wt4_${id%-4};; *-5) WT=/tmp/wt5_${id%-5};; *-6) WT=/tmp/wt6_${id%-6};; *-7) WT=/tmp/wt7_${id%-7};; *-8) WT=/tmp/wt8_${id%-8};; esac
+case $id in *-2) WT=/tmp/wt2_${id%-2};; *-3) WT=/tmp/wt3_${id%-3};; *-4) WT=/tmp/wt4_${id%-4};; *-5) WT=/tmp/wt5_${id%-5};; *-6) WT=/tmp/wt6_${id%-6};; *-7) WT=/tmp/wt7_${id%-7};; *-8) WT=/tmp/wt8_${id%-8};; *-9) WT=/tmp/wt9_${id%-9};; esac
 if [ -d $WT ]; then
   git -C $WT diff -- beyond > $S/patch.diff
   cp $WT/demo.py $WT/meta.json $S/
